@@ -165,8 +165,28 @@ def check_helpers(ctx, n, v):
             ctx.violation("helpers_raise", "string_to_number_fixedlen raised %s" % type(e).__name__, dict(n=n))
 
 
+_ER = {"i": 0}
+
+
+def _contained(x, i):
+    """The same bytes in another legal container (writable ones, wide items, views): the refusal and its type do not depend on it."""
+    try:
+        return gen.pick_container(x, i)[1]
+    except Exception:
+        return x
+
+
 def expect_reject(ctx, cls, key, f, arg, n, allowed, mech, desc):
     ctx.case(cls, key=key, sample=dict(decoder=f.__name__, n=n, input=arg, what=desc) if ctx.want(cls) else None)
+    _ER["i"] += 1
+    if _ER["i"] % 2 == 0:
+        j = _ER["i"] // 2
+        if isinstance(arg, bytes):
+            arg = _contained(arg, j)
+            ctx.count("malformed_input_in_other_container")
+        elif isinstance(arg, (tuple, list)) and all(isinstance(x, bytes) for x in arg):
+            arg = type(arg)(_contained(x, j + 3 * k_) if (j + k_) % 2 else x for k_, x in enumerate(arg))
+            ctx.count("malformed_input_in_other_container")
     try:
         got = f(arg, n)
     except allowed:
